@@ -149,11 +149,11 @@ def check_correlation(ctx, spec, temps, batch, key, acc=None, library=None, do_p
         ctx.case(None)
         batch.append(({'op': 'c05.eval', 'cor': L.jspec(spec, {}), 'T': L.J(spec['tref']), 'want': []}, {'mk': mk}, inp0, None))
         return None
-    if spec.get('via_update') and spec['pts']:
+    if (spec.get('via_update') or spec.get('via_yaml')) and spec['pts']:
         prob = L.held_data_problem(obj, spec)
         ctx.count('held_data_checks')
         if prob:
-            ctx.violation('after a history of API calls the correlation does not hold the data it was given (so it cannot reproduce its table)',
+            ctx.violation('after a history of API calls (or built by the YAML constructor) the correlation does not hold the data it was given',
                           inp0, expected='the data of the specification', observed=prob)
     rd = L.inner(obj)
     has_cp = bool(spec['pts'])
@@ -369,6 +369,11 @@ def grid(ctx, batch, acc, reps):
                         spec['via_update'] = rng.choice(L.WAYS)
                         ctx.count('built_via_update')
                         ctx.count('way_%s' % spec['via_update'])
+                    elif rng.random() < 0.2:
+                        # the same data handed to the class through its YAML constructor (non-dimensional keys)
+                        spec['via_yaml'] = 'nd'
+                        ctx.count('built_via_yaml')
+                        ctx.count('built_via_yaml_zero_ref' if (spec['href'] == 0 or spec['sref'] == 0) else 'built_via_yaml_nonzero')
                     check_correlation(ctx, spec, sorted(temps.items()), batch, (kind, n, rkind, pact), acc)
         if ctx.time_left() < 120:
             raise common.MachineryError('time budget exhausted in the C05 grid')
@@ -400,6 +405,109 @@ def constructor_cases(ctx, batch, n):
             spec['tref'] = rng.choice([mn - 1.0, mx + 1.0])
         ctx.count('constructor_mode_%d' % mode)
         check_correlation(ctx, spec, [(spec['tref'], 'tref')], batch, ('ctor', mode), None, do_perm=False)
+
+
+# ----------------------------------------------------------------------------- next to the special temperatures
+# offsets in K, each tried with both signs: from one ulp to a third of a kelvin.  numpy.isclose's default window around
+# 298.15 K is 3 mK, math.isclose's 0.3 uK, a rounding to 2 / 1 / 0 decimals 5 mK / 50 mK / 0.5 K
+NEAR_OFFSETS = [None, 1e-10, 1e-8, 1e-7, 1e-6, 1e-5, 1e-4, 1e-3, 2.5e-3, 0.004, 0.01, 0.04, 0.3]
+
+
+def near_special(ctx, batch, acc, reps):
+    """Every special temperature of a correlation (T_ref, first / last / an interior tabulated temperature, the range ends) against
+    temperatures a hair away from it.  A comparison made with a tolerance, a rounded key, a memo keyed by a formatted temperature
+    -- anything that answers for t* when asked for t* + d -- leaves a flat step in H/RT, S/R or Cp/R; the step is tiny, so the
+    oracle here is local: between t* and t* + d both values come out of the same few operations, and the change of T*(H/RT)
+    [S/R next to T_ref] must be the integral of Cp/R [Cp/(R T)] over that sliver to rounding error, not to quadrature error."""
+    rng = ctx.rng
+    for n in (1, 2, 3, 4, 6, 9, 16):
+        for rep in range(reps):
+            pts = L.gen_table(rng, n)
+            for pi, pcls in enumerate(L.PLACEMENTS):
+                r = range_for(rng, 'degenerate' if (rep + pi) % 4 == 3 else 'present', pts)
+                lo, hi = r
+                tref, pact = L.place(rng, pcls, pts, lo, hi)
+                kind = KINDS[(n + rep + pi) % 3]
+                spec = {'kind': kind, 'href': round(rng.uniform(-60, 60), 3), 'sref': round(rng.uniform(-10, 40), 3),
+                        'pts': L.shuffled(rng, pts), 'tref': tref, 'range': r}
+                specials = {tref: 'tref', pts[0][0]: 'at_min', pts[-1][0]: 'at_max', lo: 'range_lo', hi: 'range_hi'}
+                if n >= 3:
+                    specials.setdefault(rng.choice(pts[1:-1])[0], 'at_knot')
+                pairs = []
+                for t0, cls in specials.items():
+                    for d in rng.sample(NEAR_OFFSETS, 4):
+                        for up in (True, False):
+                            T = L.nexta(t0, up) if d is None else (t0 + d if up else t0 - d)
+                            if lo <= T <= hi and T != t0:
+                                pairs.append((t0, T, cls, 'ulp' if d is None else '%g' % d))
+                ctx.count('near_objects')
+                check_near(ctx, spec, pairs, batch, (kind, n, pact))
+
+
+def check_near(ctx, spec, pairs, batch, key):
+    obj, mk = L.build_impl(spec)
+    inp0 = {'spec': spec, 'near': True}
+    if obj is None:
+        ctx.violation('constructor outcome differs from the documented precondition (range must contain the table and T_ref)',
+                      inp0, expected='ok', observed=mk)
+        return
+    rd = L.inner(obj)
+    si = L.SpecIntegrals(spec, rd)
+    href, sref, tref = spec['href'], spec['sref'], spec['tref']
+    lo, hi = L.eff_range(spec)
+    cmax = max(abs(p[1]) for p in spec['pts'])
+    tmax = max(abs(hi), abs(tref))
+    h_scale = abs(href * tref) + 4 * cmax * tmax
+    s_scale = abs(sref) + cmax * (abs(math.log(hi / lo)) + 1.0)
+    vals = {}
+
+    def at(T):
+        if T not in vals:
+            vals[T] = {w: L.eval_impl(obj, w, T, ctx.count) for w in L.WHICH}
+            orc = L.oracle_for(spec, obj, T, L.WHICH)
+            batch.append(({'op': 'c05.eval', 'cor': L.jspec(spec, orc), 'T': L.J(T), 'want': list(L.WHICH)},
+                          {'mk': 'ok', 'range': L.impl_range(obj), 'outs': vals[T]}, dict(inp0, T=T), spec))
+        return vals[T]
+    for t0, T, cls, dname in pairs:
+        a, b = at(t0), at(T)
+        ctx.case(key + ('near', cls, dname))
+        ctx.count('near_' + cls)
+        inp = dict(inp0, T=[t0, T], special=cls)
+        if not all('ok' in o[w] for o in (a, b) for w in L.WHICH):
+            ctx.violation('in-range evaluation next to a special temperature does not return finite numbers', inp, 'finite values',
+                          {'at': a, 'next to it': b})
+            continue
+        # H: exact spline integration on both sides -> rounding error only
+        lhs = T * b['h']['ok'] - t0 * a['h']['ok']
+        rhs = si.int_cp(t0, T)
+        tol = 1e-11 * h_scale + 1e-9 * abs(rhs)
+        NEAR_WORST['h'] = max(NEAR_WORST['h'], abs(lhs - rhs) / (1e-11 * h_scale + 1e-9 * abs(rhs) + 1e-300))
+        if abs(lhs - rhs) > tol:
+            ctx.violation('next to a special temperature the change of T*(H/RT) is not the integral of Cp/R over the sliver between the two temperatures',
+                          inp, expected=rhs, observed=lhs)
+        # S: sharp next to T_ref (both quadratures run over a sliver), quadrature-limited elsewhere
+        lhs = b['s']['ok'] - a['s']['ok']
+        rhs = si.int_cp_over_t(t0, T)
+        if cls == 'tref' or t0 == tref:
+            tol = 1e-11 * s_scale + 1e-7 * abs(rhs)
+            NEAR_WORST['s_tref'] = max(NEAR_WORST['s_tref'], abs(lhs - rhs) / (tol + 1e-300))
+        else:
+            tol = 1e-5 * (s_scale + 0.1)
+            NEAR_WORST['s'] = max(NEAR_WORST['s'], abs(lhs - rhs) / tol)
+        if abs(lhs - rhs) > tol:
+            ctx.violation('next to a special temperature the change of S/R is not the integral of Cp/(R T) over the sliver between the two temperatures',
+                          inp, expected=rhs, observed=lhs)
+        # Cp: the interpolant's own piecewise polynomial inside the table, the end values outside
+        want = si.cmn if T < si.mn else si.cmx if T > si.mx else (float(si.pp(T)) if si.pp is not None else si.c1)
+        NEAR_WORST['cp'] = max(NEAR_WORST['cp'], abs(b['cp']['ok'] - want) / (1e-9 * (cmax + 1e-300)))
+        if abs(b['cp']['ok'] - want) > 1e-9 * (cmax + 1e-300):
+            ctx.violation('next to a special temperature Cp/R is not the value of the interpolant (held at the end values outside the table)',
+                          dict(inp, evaluated_at=T), expected=want, observed=b['cp']['ok'])
+        if abs(b['g']['ok'] - (b['h']['ok'] - b['s']['ok'])) > 1e-12 * (abs(b['h']['ok']) + abs(b['s']['ok']) + 1e-300):
+            ctx.violation('G/RT is not H/RT - S/R', dict(inp, evaluated_at=T), b['h']['ok'] - b['s']['ok'], b['g']['ok'])
+
+
+NEAR_WORST = {'h': 0.0, 's_tref': 0.0, 's': 0.0, 'cp': 0.0}
 
 
 # ----------------------------------------------------------------------------- exact-rational mode for H/RT
@@ -623,6 +731,8 @@ FLOORS = {'tref_below': 8, 'tref_at_min': 8, 'tref_between': 8, 'tref_at_knot': 
           'impl_s_incomplete': 10, 'impl_h_outside': 10, 'exact_mode': 500, 'shipped_groups': 60, 'size_01': 4, 'size_16': 4,
           'hist_histories': 300, 'hist_model_steps': 1500, 'hist_op_update': 300, 'hist_op_delCp': 150, 'hist_op_setRange': 150,
           'hist_op_copy': 60, 'hist_op_delH': 40, 'hist_res_raised:readOnly': 60, 'hist_res_raised:value': 60,
+          'near_objects': 80, 'near_tref': 400, 'near_at_min': 200, 'near_at_max': 200, 'near_range_lo': 100, 'near_range_hi': 100,
+          'near_at_knot': 100, 'built_via_yaml': 80, 'built_via_yaml_zero_ref': 20,
           'hist_res_raised:key': 40, 'hist_res_raised:assertion': 12, 'hist_update_other_Tref_done': 10, 'hist_model_h_ok': 2000}
 
 
@@ -660,6 +770,8 @@ def run_inner(ctx):
     H.run(ctx, ctx.n(300, 2500), 12 if not ctx.thorough() else 24)
     batch = []
     grid(ctx, batch, acc, ctx.n(2, 24))
+    near_special(ctx, batch, acc, ctx.n(2, 30))
+    ctx.extra.setdefault('coverage', {})['near_special_worst_error_over_tolerance'] = dict(NEAR_WORST)
     constructor_cases(ctx, batch, ctx.n(120, 2000))
     shipped(ctx, batch, acc, 0 if ctx.thorough() else ctx.n(14, 0))
     compare_batch(ctx, batch)
@@ -700,6 +812,9 @@ def replay(ctx, rec):
         return len(ctx.violations) == before
     spec = inp['spec']
     T = inp.get('T')
+    if inp.get('near') and isinstance(T, list) and len(T) == 2:
+        check_near(ctx, spec, [(float(T[0]), float(T[1]), inp.get('special', 'replay'), 'replay')], [], ('replay',))
+        return len(ctx.violations) == before
     Ts = T if isinstance(T, list) else [T]
     temps = set((float(t), 'replay') for t in Ts if t is not None)
     temps.add((spec['tref'], 'tref'))
